@@ -76,6 +76,18 @@ def hopRemoveP (hop prot : List Bytes) (h : Hdr) : Hdr := (hop ++ connNamesP pro
 
 def hopRemove (hop : List Bytes) (h : Hdr) : Hdr := (hopList hop h).foldl hopStep h
 
+/-- the header map `ReadRequest` builds from the field lines on the wire (names canonicalised, values of equal names
+    collected in order of appearance, Host moved out of the map) — for requests without body/framing fields -/
+def groupFields : List (Bytes × Bytes) → Hdr
+  | [] => []
+  | (k, v) :: rest =>
+    let g := groupFields rest
+    let ck := canon k
+    (ck, v :: lookup g ck) :: g.filter fun kv => kv.1 != ck
+
+def wireHeader (fields : List (Bytes × Bytes)) : Hdr :=
+  groupFields (fields.filter fun f => canon f.1 != kHost)
+
 /-- `exclude[k]` of `Request.write`, from THIS property's regenerated copy of the table (so that a C26
     check never reads a stale Generated/C25.lean) -/
 def excluded26 (k : Bytes) : Bool := BfeVerif.Generated.C26.reqWriteExclude.contains k
